@@ -2,7 +2,8 @@
 
 stdin : {"cases": [case, ...]}
         case = {"shape": str, "x": bool, "entry": "parse_args|parse_object|parse_string|parse_env|parse_path",
-                "input": ..., "files": {relative name: text}, "dcf": text or null, "stdin": "none" or absent}
+                "input": ..., "files": {relative name: text}, "dcf": text or null, "stdin": "none" or absent,
+                "history": [{"entry": ..., "input": ...}, ...] calls made before on the same parser object (outcomes swallowed)}
 stdout: last line {"obs": [...]}; one observation per case:
         {"k": "ret"} | {"k": "exit", "code": c, "usage": bool, "frames": [...]} |
         {"k": "exc", "cls": "module.Qualname", "argerr": bool, "frames": [[module, qualname, lineno], ...] (jsonargparse
@@ -71,9 +72,11 @@ def build(shape, x, dcf_path):
     kw = dict(exit_on_error=x, env_prefix="APP", default_env=False)
     if dcf_path is not None:
         kw["default_config_files"] = [dcf_path]
+    if shape == "json":
+        kw["parser_mode"] = "json"
     p = ArgumentParser(**kw)
     p.add_argument("--cfg", action=ActionConfigFile)
-    if shape == "basic":
+    if shape in ("basic", "json"):
         p.add_argument("--a", type=int, default=1)
         p.add_argument("--s", type=str)
         p.add_argument("--f", type=float, default=0.5)
@@ -221,6 +224,20 @@ def to_bytes(text):
         return text.encode("utf-8", errors="surrogatepass")
 
 
+def call(parser, entry, inp):
+    if entry == "parse_args":
+        return parser.parse_args(list(inp))
+    if entry == "parse_string":
+        return parser.parse_string(inp)
+    if entry == "parse_object":
+        return parser.parse_object(inp)
+    if entry == "parse_env":
+        return parser.parse_env(dict(inp))
+    if entry == "parse_path":
+        return parser.parse_path(inp)
+    raise ValueError("unknown entry %r" % entry)
+
+
 def run_case(case, base):
     work = tempfile.mkdtemp(prefix="c", dir=base)
     os.chdir(work)
@@ -256,19 +273,16 @@ def run_case(case, base):
         try:
             with contextlib.redirect_stdout(out), contextlib.redirect_stderr(err):
                 parser = build(case["shape"], case["x"], dcf_path)
-                entry = case["entry"]
-                if entry == "parse_args":
-                    parser.parse_args(list(inp))
-                elif entry == "parse_string":
-                    parser.parse_string(inp)
-                elif entry == "parse_object":
-                    parser.parse_object(inp)
-                elif entry == "parse_env":
-                    parser.parse_env(dict(inp))
-                elif entry == "parse_path":
-                    parser.parse_path(inp)
-                else:
-                    raise ValueError("unknown entry %r" % entry)
+                # calls made earlier on the SAME parser object: whatever they do is swallowed, only the last call is observed
+                for h in case.get("history") or []:
+                    try:
+                        call(parser, h["entry"], decode(h["input"]) if h["entry"] == "parse_object" else h["input"])
+                    except Hung:
+                        raise
+                    except BaseException:  # noqa: B036
+                        pass
+                out.seek(0), out.truncate(), err.seek(0), err.truncate()
+                call(parser, case["entry"], inp)
             obs = {"k": "ret"}
         finally:
             signal.alarm(0)
